@@ -682,6 +682,26 @@ def bounded_by_len(edge):
                             src = tr._rv(s2["rv"], (), set(), 0, b2, idx) if s2["rv"]["k"] in ("use",) else set()
                             if src and all(l.kind == "op" and l.detail[1] in ("Add", "AddWithOverflow") for l in src):
                                 return True
+    # same bound, written as `let Some(next) = seq.get(x + 1) else { error }`: the call is dominated by the Some edge of a slice/Vec get()
+    # whose index is an increment, the None edge cannot reach the call, and the incremented value is stored before the call
+    for gb, t in b.calls():
+        cd = callee_def(t)
+        if not (cd.endswith("<impl [T]>::get") or cd.endswith("Vec::<T, A>::get")) or len(t["args"]) < 2 or gb == edge.bb or not b.dominates(gb, edge.bb):
+            continue
+        il = tr.operand(t["args"][1])
+        if not (il and all(l.kind == "op" and l.detail[1] in ("Add", "AddWithOverflow") for l in il)):
+            continue
+        for sb, tgt in ok_edges_of_call(b, b.crate, gb):
+            if not b.dominates(tgt, edge.bb):
+                continue
+            others = [x for x in b.succ[sb] if x != tgt]
+            if any(edge.bb in b.reach_from(o, removed_blocks=frozenset([sb])) for o in others):
+                continue
+            for b2, idx, s2 in b.stmts():
+                if idx != "t" and s2["k"] == "assign" and s2["pl"]["p"] and b.dominates(tgt, b2) and b.dominates(b2, edge.bb):
+                    src = tr._rv(s2["rv"], (), set(), 0, b2, idx) if s2["rv"]["k"] in ("use",) else set()
+                    if src and all(l.kind == "op" and l.detail[1] in ("Add", "AddWithOverflow") for l in src):
+                        return True
     return False
 
 
